@@ -27,6 +27,13 @@
       holds and mark_job_complete returns them again; schedule_job returns normally only on paths through the CALL (otherwise neither
       delta_cores_mcpu nor the handler ever settles the reservation).  Awaited calls after the CALL are declined, not judged.
 Not decided: histories as such.
+
+Names are not interpreted: locals of the routines (instance state, end time, cores) are resolved through the reads that bind them
+(`SELECT state .. FROM instances WHERE name = X`, `SELECT end_time .. FROM attempts WHERE <attempt key>`, `SELECT cores_mcpu .. FROM jobs WHERE <job key>`),
+the parameters of add_attempt through the columns of its INSERT INTO attempts, table aliases through the FROM clause, `SET v = <test>` locals through
+engines/c04facts.RoutineLocals, increments through sqlrules.dup_increment (operand order), Python result rows / instance lookups / deltas through def-use
+(any local name, conditional expressions, alias locals), helpers of Instance and of driver/job.py by inlining.  A shape that is not resolved is declined;
+a FAIL needs a resolved construct that breaks the obligation.
 """
 from __future__ import annotations
 
@@ -420,12 +427,51 @@ def r8(ctx: Ctx, jobm: pf.Module, poolm: pf.Module, neg: list, pos: list, procs_
     with a delta returned by a stored procedure (R6 sites) or as the scheduler's optimistic decrement / its undo (R6 pair)."""
     im = pf.load(INSTANCE_PY)
     rels = list(pf.walk_py(['batch/batch'] if ctx.tier == 'quick' else ['batch', 'gear', 'ci', 'auth']))
+    # The three mirrored events are methods of Instance; private helpers extracted from them (deactivate -> _mark_inactive_in_memory ..) are analysed
+    # inlined into the method that calls them.  A helper is covered when every call of it in the class was inlined into an event method.
+    EVENTS = ('__init__', 'deactivate', 'adjust_free_cores_in_memory')
+    icls = im.cls('Instance')
+    imethods = {f.name: f for f in icls.body if isinstance(f, (ast.FunctionDef, ast.AsyncFunctionDef))}
+    inl: Dict[str, Tuple[pf.Module, pf.FuncDef]] = {}
+    covered: Set[str] = set()
+    uncovered_why: Dict[str, str] = {}
+    for ev_ in EVENTS:
+        if ev_ in imethods:
+            m2_, il_ = inline.inline_methods(im, 'Instance', ev_, exclude=tuple(x for x in EVENTS if x != ev_))
+            inl[ev_] = (m2_, m2_.func(f'Instance.{ev_}'))
+            covered |= {nm for nm, _ in il_.inlined}
+            for nm, line_, why_ in il_.skipped:
+                uncovered_why[nm] = f'line {line_}: {why_}'
+    for nm in list(covered):
+        sites = [mod_fn for mod_fn in imethods.values() for c in ast.walk(mod_fn) if isinstance(c, ast.Call) and isinstance(c.func, ast.Attribute) and c.func.attr == nm
+                 and isinstance(c.func.value, ast.Name) and mod_fn.args.args and c.func.value.id == mod_fn.args.args[0].arg]
+        outside = False
+        for rel_ in rels:
+            mod_ = pf.load(rel_)
+            if nm not in mod_.src:
+                continue
+            for c in ast.walk(mod_.tree):
+                if isinstance(c, ast.Attribute) and c.attr == nm and isinstance(c.ctx, ast.Load):
+                    f_ = mod_.enclosing_func(c)
+                    in_cls = rel_ == INSTANCE_PY and f_ is not None and f_ in imethods.values() and isinstance(c.value, ast.Name) and f_.args.args and c.value.id == f_.args.args[0].arg
+                    outside = outside or not in_cls
+        if outside or any(f_.name not in EVENTS and f_.name not in covered for f_ in sites) or nm in uncovered_why:
+            covered.discard(nm)
+    scans: List[Tuple[str, pf.Module, Optional[pf.FuncDef]]] = []
     for rel in rels:
         mod = pf.load(rel)
         if MIRROR_ATTR not in mod.src and 'adjust_free_cores_in_memory' not in mod.src:
             continue
-        for node in ast.walk(mod.tree):
+        scans.append((rel, mod, None))
+    for ev_, (m2_, f2_) in inl.items():
+        scans.append((INSTANCE_PY, m2_, f2_))
+    for rel, mod, only in scans:
+        for node in (ast.walk(only) if only is not None else ast.walk(mod.tree)):
             tgt = None
+            if only is None and rel == INSTANCE_PY:
+                f0 = mod.enclosing_func(node) if isinstance(node, (ast.Assign, ast.AugAssign, ast.AnnAssign)) else None
+                if f0 is not None and f0 in imethods.values() and (f0.name in EVENTS or f0.name in covered):
+                    continue  # judged in the inlined copy of the event method
             if isinstance(node, ast.Assign):
                 tg = [t_ for t_ in node.targets if isinstance(t_, ast.Attribute) and t_.attr == MIRROR_ATTR]
                 tgt = tg[0] if tg else None
@@ -461,8 +507,10 @@ def r8(ctx: Ctx, jobm: pf.Module, poolm: pf.Module, neg: list, pos: list, procs_
                 ok = add and isinstance(amount, ast.Name) and amount.id in own_params and on_self
                 ctx.check(ok, 'R8', cons, 'adjust_free_cores_in_memory does not add its argument to the in-memory free cores', mod.path, node.lineno)
             else:
+                if rel == INSTANCE_PY and fn is not None and fn.name in uncovered_why:
+                    raise AnalysisError(f'{cons}: helper `{fn.name}` writes the in-memory free cores and is called from a mirrored event in a form that cannot be inlined ({uncovered_why[fn.name]})')
                 ctx.bad('R8', cons, f'{q} changes the in-memory free cores directly; the only mirrored events are construction, deactivation and adjust_free_cores_in_memory(delta)', mod.path, node.lineno)
-        for node in ast.walk(mod.tree):
+        for node in (ast.walk(mod.tree) if only is None else []):
             if isinstance(node, ast.Call) and isinstance(node.func, ast.Attribute) and node.func.attr == 'adjust_free_cores_in_memory':
                 fn = mod.enclosing_func(node)
                 q = mod.qualname(fn) if fn is not None else '<module>'
@@ -477,7 +525,7 @@ def r8(ctx: Ctx, jobm: pf.Module, poolm: pf.Module, neg: list, pos: list, procs_
                             'optimistic decrement with its undo: the database counter does not move with it, so the two copies drift apart (e.g. a reservation made before scheduling that '
                             'is never given back when scheduling fails, or is counted again when the procedure reports its delta)', mod.path, node.lineno)
     # deactivation mirrors the reset: every normal completion of Instance.deactivate that reaches the state change also resets the cores
-    fn = im.func('Instance.deactivate')
+    fn = inl['deactivate'][1] if 'deactivate' in inl else im.func('Instance.deactivate')
     g = pf.cfg(fn)
     me = fn.args.args[0].arg if fn.args.args else 'self'
     st_nodes = g.find(lambda n: isinstance(n.ast, ast.Assign) and pf.nsrc(n.ast.targets[0]) == f'{me}._state' and pf.const_str(pf.expand_locals(fn, n.ast.value)) == 'inactive')
